@@ -139,17 +139,26 @@ def entries {α : Type} : Nat → Slots α → List (Bytes × α)
 def digit (H : Bytes → Bytes) (k : Bytes) (c l : Nat) : Option Nat :=
   ((HashBits.mk (H k) c).next l).map (·.1)
 
+def hexDigitU (n : Nat) : UInt8 := if n < 10 then UInt8.ofNat (48 + n) else UInt8.ofNat (55 + n)
+
+/-- `fmt.Sprintf("%0<pad>X", p)` for `p < 16^pad`: the link-name prefix boxo writes for slot `p` -/
+def hexPad : Nat → Nat → Bytes
+  | 0, _ => []
+  | k + 1, p => hexPad k (p / 16) ++ [hexDigitU (p % 16)]
+
 /-- Well-formedness of a link list against the ascending list `ps` of its shard's set bits:
 `c` bits consumed before this shard's digit of `l` bits; `L` = hash length in bytes.
-Every value sits in the slot its own hash digit names, every key below a child shard has this shard's
+Every link name starts with the upper-case hex of its slot (`linkNamePrefix`), every value sits in the
+slot its own hash digit names, every key below a child shard has this shard's
 digit equal to the child's slot, child shards are themselves well-formed. Decidable; the driver
 evaluates it on every dumped HAMT. -/
 def wfSlots {α : Type} (H : Bytes → Bytes) (L c l pad : Nat) : Slots α → List Nat → Bool
   | .nil, ps => ps.isEmpty
   | .val name _ rest, p :: ps =>
-    decide (pad < name.length) && digit H (name.drop pad) c l == some p && wfSlots H L c l pad rest ps
+    decide (name.take pad = hexPad pad p) && decide (pad < name.length)
+      && digit H (name.drop pad) c l == some p && wfSlots H L c l pad rest ps
   | .sub name fanout bf slots rest, p :: ps =>
-    decide (name.length = pad)
+    decide (name.take pad = hexPad pad p) && decide (name.length = pad)
       && ((entries (padLen fanout) slots).all fun e => digit H e.1 c l == some p)
       && decide (c + l + log2Size fanout ≤ 8 * L ∧ bf < 2 ^ fanout)
       && wfSlots H L (c + l) (log2Size fanout) (padLen fanout) slots (positions fanout bf)
